@@ -6,6 +6,7 @@
 package main
 
 import (
+	"bytes"
 	"crypto"
 	"crypto/rand"
 	"crypto/rsa"
@@ -34,6 +35,7 @@ type Plan struct {
 	// threshold RSA
 	Key      string `json:"key,omitempty"`
 	Cache    bool   `json:"cache,omitempty"`
+	Resign   bool   `json:"resign,omitempty"` // every player already signed an earlier message with the same share object
 	Rotate   bool   `json:"rotate,omitempty"` // restarting players load the new share into the object that held the previous deal's share
 	Blind    bool   `json:"blind,omitempty"`
 	Parallel bool   `json:"parallel,omitempty"`
@@ -108,6 +110,7 @@ func gen(r *core.PRNG, tier string) any {
 		p.Cache, p.Blind, p.Parallel, p.PSS = r.Bool(), r.Chance(1, 3), r.Bool(), r.Bool()
 		p.Arrive = subsetPlan(r, p.N, p.T)
 		p.Rotate = r.Chance(1, 3)
+		p.Resign = r.Chance(1, 3)
 	}
 	for _, a := range p.Arrive {
 		if r.Chance(1, 5) {
@@ -394,6 +397,26 @@ func execRSA(p *Plan, run *core.Run) {
 		}
 		var ss tssrsa.SignShare
 		var err error
+		if p.Resign {
+			// an earlier signing session used the same share object (its result is discarded)
+			before, _ := shares[h-1].MarshalBinary()
+			var early *core.Stream
+			if p.Blind {
+				early = core.NewStream(p.Seed + uint64(500+h))
+				_, err = shares[h-1].Sign(early, pub, msgPH, p.Parallel)
+			} else {
+				_, err = shares[h-1].Sign(nil, pub, msgPH, p.Parallel)
+			}
+			if err != nil {
+				run.Violate(comp+".KeyShare.Sign", "error", "player %d (earlier session): %v", h, err)
+				return
+			}
+			run.Fault("history:share-object-signed-before")
+			if after, _ := shares[h-1].MarshalBinary(); p.Cache && !bytes.Equal(before, after) {
+				run.Violate(comp+".KeyShare.Sign", "signing-changes-the-key-share", "player %d: the stored share encodes differently after one Sign (blind=%v)", h, p.Blind)
+				return
+			}
+		}
 		if rnd != nil {
 			ss, err = shares[h-1].Sign(rnd, pub, msgPH, p.Parallel)
 		} else {
